@@ -109,6 +109,7 @@ package parsigdb
 
 //@ func (db *MemDB) StoreExternal
 //@ props C07 C01 C18
+//@ assigns db.entries, db.keysByDuty, db.exemptEntries
 // every threshold subscriber call gets its own clone of the output
 //@ callreq sub: ncalls(clone) == ncalls(sub) + 1
 //@ loop 3 invariant ncalls(clone) == ncalls(sub)
